@@ -337,7 +337,11 @@ func ModelConn(svc ServiceSpec, frames []FrameSpec, stopAfter int, scripts map[i
 					}
 					if a.Params != "" && !json.Valid([]byte(a.Params)) {
 						// parameters that are not one JSON document cannot be put on the wire
-						cm.Refused[cid] = append(cm.Refused[cid], ai)
+						// (for a oneway call nothing is put on the wire anyway: whether the
+						// handler is told is not determined)
+						if !pc.oneway {
+							cm.Refused[cid] = append(cm.Refused[cid], ai)
+						}
 						continue
 					}
 					cm.Accepted[cid] = append(cm.Accepted[cid], ai)
